@@ -115,7 +115,7 @@ class QuadraticBezier(ArcLengthMixin, Segment):
     def curvatureAtTime(self, t: float) -> float:
         """Returns the C curvature at time `t`."""
         d = self.derivative()
-        d2 = self.end - self.start  # A constant
+        d2 = d.end - d.start  # A constant
         return (d.pointAtTime(t).x * d2.y - d.pointAtTime(t).y * d2.x) / (
             (d.pointAtTime(t).x ** 2 + d.pointAtTime(t).y ** 2) ** 1.5
         )
